@@ -39,8 +39,23 @@ def _class_shape(ctx: Ctx, c: Collector, qn: str) -> None:
     if not frozen and "__eq__" not in own:
         pr.append("not a frozen dataclass with field equality: == is not tier equality, so the derived <=, >= are inconsistent")
     for m in ("__le__", "__gt__", "__ge__"):
-        if m in own and tot:
-            pr.append(f"{m} is defined by hand next to total_ordering (sibling of __lt__ that must agree with it; not analysed)")
+        if m in own:
+            mfi = ci.methods[m]
+            ms = summarise(ctx.prog, mfi)
+            a, b = T.var(mfi.params[0]), T.var(mfi.params[1])
+            lt_ab, lt_ba, eq = ("cmp", "<", a, b), ("cmp", "<", b, a), T.canon_cmp("==", a, b)
+            # required value under the trichotomy rows (lt, gt, eq)
+            need = {"__le__": (True, False, True), "__gt__": (False, True, False), "__ge__": (False, True, True)}[m]
+            okm = len(ms.returns) == 1
+            if okm:
+                try:
+                    for i, row in enumerate(({lt_ab: True, lt_ba: False, eq: False}, {lt_ab: False, lt_ba: True, eq: False}, {lt_ab: False, lt_ba: False, eq: True})):
+                        if boolfn.eval_leaves(ms.returns[0].term, row) != need[i]:
+                            okm = False
+                except boolfn.NotBoolean:
+                    okm = False
+            if not okm:
+                pr.append(f"hand-written {m} does not agree with __lt__ and == (for equal / ordered operands it gives the wrong answer or is not understood)")
     c.add("class", qn, "total_ordering+frozen dataclass", VIOLATED if pr else DISCHARGED, "; ".join(pr), f"{ci.module.relpath}:{ci.node.lineno}")
 
 
@@ -102,12 +117,33 @@ def _ti_lt(ctx: Ctx, c: Collector) -> None:
         elif e.kind == "raise":
             items.append(("abort", e.guards))
     pr: List[str] = []
+    # the loop index (for the incomparability flags)
+    iv = None
+    for e in in_loop:
+        it = e.iters[0]
+        if T.strip(it[2]) == call(T.glob("enumerate"), zp) and it[1][0] == "tuple":
+            iv = it[1][1][0]
+        break
     try:
         # guards outside the loop (length assertions) are not part of the per-tier decision
         pre = [g for g in (s.events[-1].guards if s.events else ())]
         items = [(lab, [g for g in gs if g not in pre]) for lab, gs in items]
-        for a, fired in tables.rows(items, [LT, GT]):
+        must = [LT, GT]
+        if iv is not None:
+            L1 = ("cmp", "<", iv, ("attr", me, "cutoff"))       # tier i is an "add" tier of self
+            L2 = ("cmp", "<", iv, ("attr", other, "cutoff"))    # tier i is an "add" tier of other
+            must += [L1, L2]
+        for a, fired in tables.rows(items, must):
             fs = set(fired)
+            if iv is not None:
+                # incomparable exactly when the deciding tier is an add tier of the smaller side's
+                # operand and an ext tier of the other: (s<o, other.cutoff <= i < self.cutoff) or
+                # (o<s, self.cutoff <= i < other.cutoff)
+                inc = (a[LT] and a[L1] and not a[L2]) or (a[GT] and a[L2] and not a[L1])
+                if inc and "abort" not in fs:
+                    pr.append("a pair that differs first in a tier that is an add-tier of one and an ext-tier of the other is ordered instead of being reported incomparable")
+                if not inc and "abort" in fs:
+                    pr.append("comparable delays are reported as incomparable (the add/ext flags of the two operands are mixed up)")
             if a[LT]:
                 if not fs or not fs <= {"ret:True", "abort"}:
                     pr.append(f"at a tier with self < other the scan {'continues' if not fs else 'gives ' + ','.join(sorted(fs))} instead of returning True")
